@@ -219,6 +219,28 @@ theorem final_newline (items : List Item) (hm : (run1 S1.init items).mode = .cod
   generalize run1 S1.init items = s at *
   cases s; simp_all [run1, step1, codeStep]
 
+/-- Blanks after the last line break (no line break after them) are invisible: whatever their width — narrower than,
+equal to or wider than the open block — no INDENT, DEDENT or error is produced for them; the file lexes as without. -/
+theorem eof_blank_tail_invisible (items : List Item) (n : Nat) (hm : (run1 S1.init items).mode = .ls n)
+    (ws : List Char) (hws : ∀ c ∈ ws, IsBlankCh c) :
+    lex (items ++ ws.map .ch) = lex items := by
+  unfold lex events
+  rw [run1_append, leading_blanks _ n hm ws hws]
+
+/-- … and the same for a comment without a line break at the very end of the file. -/
+theorem eof_comment_tail_invisible (items : List Item) (n : Nat) (hm : (run1 S1.init items).mode = .ls n)
+    (ws : List Char) (hws : ∀ c ∈ ws, IsBlankCh c) (body : List Char) (hb : '\n' ∉ body) :
+    lex (items ++ (ws.map .ch ++ .ch '#' :: body.map .ch)) = lex items := by
+  unfold lex events
+  rw [run1_append, run1_append, leading_blanks _ n hm ws hws, run1_cons]
+  have h1 : step1 { run1 S1.init items with mode := .ls (n + width ws) } (.ch '#')
+      = { run1 S1.init items with mode := .cmtLs } := by simp [step1]
+  rw [h1, comment_body_skipped _ (Or.inr rfl) body hb]
+
+example : lex [.tok 1 false false, .ch '\n', .ch ' ', .ch ' ', .tok 2 false false, .ch '\n', .ch ' ', .ch ' ', .ch ' ', .ch ' ', .ch ' ', .ch '\t']
+    = lex [.tok 1 false false, .ch '\n', .ch ' ', .ch ' ', .tok 2 false false, .ch '\n'] := by decide
+
+
 /-! Concrete instances. -/
 example : StrictMono0 (fun n => 2 * n) := ⟨rfl, fun a b h => by show 2 * a < 2 * b; omega⟩
 
